@@ -676,8 +676,8 @@ func c19(c *core.Ctx) {
 			if fn.Parent() == nil && len(fn.Params) == 1 && core.TypeStr(fn.Params[0].Type()) == "[]string" && fn.Signature.Results().Len() == 2 {
 				// the option parser returns the options struct (a struct with the import map), not a scalar
 				if st, ok := fn.Signature.Results().At(0).Type().Underlying().(*types.Struct); ok {
-					for i := 0; i < st.NumFields(); i++ {
-						if _, isMap := st.Field(i).Type().Underlying().(*types.Map); isMap {
+					for _, ff := range core.FlatFields(st) {
+						if _, isMap := ff.Var.Type().Underlying().(*types.Map); isMap {
 							pa = fn
 						}
 					}
